@@ -100,7 +100,11 @@ StepVerdict(e, pre, post) ==
       host == out \notin AllowedOutcomes /\ out # "notimpl"
       osys == IF Has(e.d, "osys") THEN e.d.osys ELSE <<>>
       memsz == IF Has(e.d, "memsz") THEN e.d.memsz ELSE <<>>
-      env  == (IF host THEN <<"hosterror">> ELSE <<>>) \o
+      \* C07: the length of the fetched instruction is decided by the top five bits of the first halfword
+      ilen == IF Has(e, "ilen") /\ e.act.n = "Step" /\ ISet(pre.cpsr) \in {0, 1} /\ ~BadMode(pre.cfg, Mode(pre))
+              THEN LET f == FetchInstr(X0(pre), e.act) IN IF Ok(f.x) /\ f.len # e.ilen THEN <<"ilen">> ELSE <<>>
+              ELSE <<>>
+      env  == (IF host THEN <<"hosterror">> ELSE <<>>) \o ilen \o
               (IF ~RegsTypeOK(post) THEN <<"range">> ELSE <<>>) \o
               (IF memsz # <<>> THEN <<"mem.size">> ELSE <<>>) \o
               (IF RegsTypeOK(post) /\ ~UserConfined(pre, post, osys) THEN <<"confine">> ELSE <<>>)
